@@ -357,7 +357,9 @@ def rule_zone_codes(chk):
                 elif x_ < D - tol:
                     want = (1,)
                 elif x_ <= D + tol:
-                    want = (1, 2, 0)        # today the point disp - maxdist == 1e-6 itself gets 0
+                    # around the far end of the zone the particle is in the zone or beyond it - never "in the fluid" (0 there sends an inlet original into the fluid without
+                    # it having left the zone).  The isolated points where the code's own comparisons switch (disp - maxdist == 1e-6 gets 0 today) are not judged.
+                    want = (1, 2, 0) if x_ in pts else (1, 2)
                 else:
                     want = (2,)
                 if got not in want:
@@ -380,7 +382,15 @@ def rule_zone_codes(chk):
         for x in ev:
             ldf0 = local_defs(f.body)
             who = compact(inline(x.args[0], ldf0)) if x.args else '?'
-            kw = dict((k.arg, compact(inline(k.value, ldf0))) for k in x.keywords)
+            kw = {}
+            for k in x.keywords:
+                v_ = inline(k.value, ldf0)
+                if k.arg is None and isinstance(v_, ast.Call) and compact(v_.func) == 'dict' and not v_.args:
+                    kw.update(dict((k2.arg, compact(k2.value)) for k2 in v_.keywords))          # **plane with plane = dict(x=..., ...)
+                elif k.arg is None and isinstance(v_, ast.Dict) and all(isinstance(kk, ast.Constant) for kk in v_.keys):
+                    kw.update(dict((kk.value, compact(vv)) for kk, vv in zip(v_.keys, v_.values)))
+                else:
+                    kw[k.arg] = compact(v_)
             geo = all(kw.get(k) == 'self.' + k for k in ('x', 'y', 'z', 'xn', 'yn', 'zn'))
             if who == zone:
                 ok = geo and kw.get('maxdist') == 'self.length'
